@@ -50,8 +50,8 @@ def runGo (s : St) (args : List String) (interrupt : Option (Bool × Nat)) (maxI
           { s1 with pending := [], pollPeriod := s.pollPeriod, quit := quitAfter, out := [] })
   | _ => none
 
-/-- iteration bound for the model: explicit depth, else a small number (only interrupted / time-limited
-searches have no depth, and they stop long before) -/
+/-- iteration bound for the model: explicit depth, else 200 (only interrupted / time-limited searches have no
+depth; the generators size the virtual clock so that they stop long before) -/
 def iterBound (args : List String) : Nat :=
   let rec find : List String → Option Nat
     | "depth" :: d :: _ => d.toNat?
@@ -59,7 +59,7 @@ def iterBound (args : List String) : Nat :=
     | [] => none
   match find args with
   | some d => max d 1
-  | none => 40
+  | none => 200
 
 def handleSession (args : List String) : String :=
   let cmds := splitCmds args
